@@ -109,6 +109,11 @@ impl HINFO {
             .next()
             .ok_or_else(|| ParseError::MissingToken("os".to_string()))
             .map(ToString::to_string)?;
+        if cpu.len() > 255 || os.len() > 255 {
+            return Err(ParseError::Message(
+                "character-string longer than 255 octets",
+            ));
+        }
         Ok(Self::new(cpu, os))
     }
 }
